@@ -18,7 +18,7 @@ import unified_planning.engines as engines
 from unified_planning.engines.mixins.compiler import CompilerMixin
 from unified_planning.engines.results import CompilerResult
 from unified_planning.exceptions import UPUsageError
-from unified_planning.plans import ActionInstance
+from unified_planning.plans import ActionInstance, Plan
 from typing import List, Callable, Optional
 from functools import partial
 from warnings import warn
@@ -78,8 +78,9 @@ class CompilersPipeline(engines.engine.Engine, CompilerMixin):
             )
         new_problem: "up.model.AbstractProblem" = problem
         map_back_functions: List[
-            Callable[[ActionInstance], Optional[ActionInstance]]
+            Optional[Callable[[ActionInstance], Optional[ActionInstance]]]
         ] = []
+        plan_back_conversions: List[Callable[[Plan], Plan]] = []
         for engine in self._compilers:
             assert isinstance(engine, CompilerMixin)
             if not engine.supports(new_problem.kind):
@@ -87,9 +88,21 @@ class CompilersPipeline(engines.engine.Engine, CompilerMixin):
             res = engine.compile(new_problem)
             if res.problem is None:
                 return CompilerResult(None, None, self.name)
-            assert res.map_back_action_instance is not None
+            assert res.plan_back_conversion is not None
             map_back_functions.append(res.map_back_action_instance)
+            plan_back_conversions.append(res.plan_back_conversion)
             new_problem = res.problem
+        if any(f is None for f in map_back_functions):
+            # some stage (e.g. a temporal-to-sequential compiler) can only convert whole plans back
+            plan_back_conversions.reverse()
+            return CompilerResult(
+                new_problem,
+                None,
+                self.name,
+                plan_back_conversion=partial(
+                    plan_back_conversion, plan_back_conversions=plan_back_conversions
+                ),
+            )
         map_back_functions.reverse()
         return CompilerResult(
             new_problem,
@@ -106,6 +119,15 @@ class CompilersPipeline(engines.engine.Engine, CompilerMixin):
         raise UPUsageError(
             "The CompilersPipeline does not implement the _compile method but overrides the compile method directly."
         )
+
+
+def plan_back_conversion(
+    plan: Plan,
+    plan_back_conversions: List[Callable[[Plan], Plan]],
+) -> Plan:
+    for f in plan_back_conversions:
+        plan = f(plan)
+    return plan
 
 
 def map_back_action_instance(
